@@ -212,31 +212,3 @@ fn k_complex_sub_inverts_add_exact_ints() {
     let (r, s) = ((e + g) - g, (e - g) + g);
     assert!(r.re == e.re && r.im == e.im && s.re == e.re && s.im == e.im);
 }
-
-fn int50() -> f64 {
-    // every integer of magnitude <= 2^50: sums of three of them are exactly representable
-    let x: i64 = kani::any();
-    kani::assume(x >= -1125899906842624 && x <= 1125899906842624);
-    x as f64
-}
-/// addition is associative and commutative on ALL integers up to 2^50 (no rounding can occur), thorough tier only
-#[kani::proof]
-fn k_real_add_assoc_exact_ints() {
-    let (a, b, c) = (RealSemiring(int50()), RealSemiring(int50()), RealSemiring(int50()));
-    assert!((a + b) + c == a + (b + c));
-    assert!(a + b == b + a);
-}
-#[kani::proof]
-fn k_eu_add_assoc_exact_ints() {
-    let (a, b, c) = (ExpectedUtility(int50(), int50()), ExpectedUtility(int50(), int50()), ExpectedUtility(int50(), int50()));
-    assert!((a + b) + c == a + (b + c));
-    assert!(a + b == b + a);
-}
-#[kani::proof]
-fn k_complex_add_assoc_exact_ints() {
-    use rsdd::util::semirings::Complex;
-    let mk = || Complex { re: int50(), im: int50() };
-    let (a, b, c) = (mk(), mk(), mk());
-    let (l, r) = ((a + b) + c, a + (b + c));
-    assert!(l.re == r.re && l.im == r.im);
-}
